@@ -511,7 +511,21 @@ def contains_proxy(o: Any, depth: int = 0) -> bool:
 class SArr:
     """1-D array of proxies (SFloat or SBool)."""
 
-    __array_ufunc__ = None
+    def __array_ufunc__(self, ufunc, method, *inputs, **kwargs):
+        if method != '__call__' or kwargs.get('out') is not None:
+            return NotImplemented
+        name = ufunc.__name__
+        if len(inputs) == 1:
+            return SArr([_apply_ufunc(name, [a]) for a in self.items])
+        a, b = inputs
+        if isinstance(a, SArr):
+            other = a._zip(b)
+            pairs = zip(a.items, other)
+        else:
+            other = b._zip(a)
+            pairs = zip(other, b.items)
+        res = [_apply_ufunc(name, [x, y]) for x, y in pairs]
+        return SArr(res, 'b' if res and isinstance(res[0], SBool) else 'f')
 
     def __init__(self, items: Iterable[Any], kind: str = 'f') -> None:
         self.kind = kind
@@ -630,6 +644,25 @@ class SArr:
                 raise IndexError('boolean index did not match')
             vt = _sf(v)
             self.items = [SFloat(z3.If(m.t, vt.t, a.t)) for a, m in zip(self.items, i.items)]
+            return
+        if isinstance(i, slice) and (isinstance(i.start, SInt) or isinstance(i.stop, SInt)):
+            # Python's clamping rules for a slice bound b over a sequence of length n:
+            #   b < 0 -> max(b + n, 0);  b >= 0 -> min(b, n)      (step 1 only)
+            if i.step not in (None, 1):
+                raise TypeError('SArr: symbolic slice bounds need step 1')
+            n = len(self.items)
+
+            def clamp(b, default):
+                if b is None:
+                    return z3.IntVal(default)
+                bt = b.t if isinstance(b, SInt) else z3.IntVal(int(b))
+                return z3.If(bt < 0, z3.If(bt + n < 0, z3.IntVal(0), bt + n), z3.If(bt > n, z3.IntVal(n), bt))
+
+            lo, hi = clamp(i.start, 0), clamp(i.stop, n)
+            if isinstance(v, (SArr, list, tuple, np.ndarray)):
+                raise TypeError('SArr: symbolic slice assignment of a sequence not modelled')
+            vt = _sf(v)
+            self.items = [SFloat(z3.If(z3.And(lo <= k, k < hi), vt.t, a.t)) for k, a in enumerate(self.items)]
             return
         if isinstance(i, slice):
             idx = range(*i.indices(len(self.items)))
